@@ -87,6 +87,7 @@ def guarded(fn, seconds):
 
 DNSEX = dns.exception.DNSException
 ZONE_ENTRIES = ("zone_text", "read_rrsets")
+ZONE_SEMANTIC_FILES = ("dns/transaction.py", "dns/zone.py", "dns/versioned.py", "dns/btreezone.py", "dns/node.py")
 
 
 def exc_name(e):
@@ -127,7 +128,10 @@ def allowed(entry, e):
     if isinstance(e, DNSEX):
         return True
     if entry in ZONE_ENTRIES and type(e) in (ValueError, KeyError):
-        return True
+        # "zone-semantic violations may additionally surface as the documented ValueError/KeyError":
+        # only when raised by the zone / transaction layer (e.g. "add() has non-origin SOA"), not by
+        # a conversion inside the reader or a record parser
+        return site_of(e).split(":")[0] in ZONE_SEMANTIC_FILES
     if entry == "edns_wire" and type(e) is ValueError:
         # the direct option API documents (and tests/test_edns.py pins) ValueError for a bad option;
         # inside a message or an OPT rdata the same parsers run under ExceptionWrapper(FormError)
@@ -172,6 +176,12 @@ def in_family(entry, e):
         return isinstance(e, (dns.exception.SyntaxError,) + TEXT_EXTRA)
     if entry in ("rdata_text", "ttl_text"):
         return isinstance(e, dns.exception.SyntaxError)
+    if entry in ZONE_ENTRIES:
+        # SyntaxError family (with file:line), the name-limit errors dns.name documents for every
+        # constructor, and the documented zone-semantic errors
+        return isinstance(e, (dns.exception.SyntaxError,) + TEXT_EXTRA + (dns.zone.NoSOA, dns.zone.NoNS, dns.zone.UnknownOrigin,
+                                                                           dns.zonefile.CNAMEAndOtherData, dns.zone.BadZone)) \
+            or not isinstance(e, DNSEX)
     if entry == "msg_text":
         return isinstance(e, (dns.exception.SyntaxError, dns.message.UnknownHeaderField) + TEXT_EXTRA) or isinstance(
             e, DNSEX
